@@ -54,7 +54,7 @@ theorem skip_from_doc {L : AliasLimits} {le : Loc} {X : List RawItem} {evs : Lis
     obtain ⟨l, hl⟩ := skipLoop_neutral B hB (.ev .docEnd le :: .ev (.docStart ex) ls :: Y)
       { q3 with look := none, inject := [], recStack := [] }
     rw [hl]
-    simp only [skipLoop]
+    simp only [skipLoop, skipBudget, hst.bud]
     refine ⟨_, rfl, ?_, rfl, ?_⟩
     · constructor <;> simp [Pump.resetDocumentState, hst.bud, hst.rip, hst.lim, hst.sade]
     · symm
